@@ -18,7 +18,9 @@ _CLASS_TOKEN = re.compile(r'^[A-Za-z0-9]+Type$')
 KIND_CLASS = {"int": "Int32Type", "text": "UTF8Type", "list": "ListType", "set": "SetType", "map": "MapType",
               "tuple": "TupleType", "udt": "UserType", "frozen": "FrozenType", "reversed": "ReversedType",
               "vector": "VectorType"}
-UDT_FIELDS = {"u": ("f1",), "kj": ("f1", "F2"), "Kj": ("f1",)}
+UDT_FIELDS = {"u": ("f1",), "kj": ("f1", "F2"), "Kj": ("f1",), "Big Type": ("f1",), "other-udt": ("f1",), 'a"b': ("f1",)}
+# names that need quoting in CQL -> quoted form (diagnostics only: attributes a name mismatch to the known printing defect)
+QUOTED = {"Kj": '"Kj"', "Big Type": '"Big Type"', "other-udt": '"other-udt"', 'a"b': '"a""b"'}
 
 SIG_HEXINT = "parse_casstype_args:all-digit-hex-udt-name-read-as-int"
 SIG_VECTOR = "VectorType.cql_parameterized_type:marshal-class-name-instead-of-vector"
@@ -39,7 +41,7 @@ def nows(s):
 
 def check_tables():
     """The hex table of the specification is the ASCII hex of the names (checked by the caller against states)."""
-    return {n: binascii.hexlify(n.encode("ascii")).decode() for n in ("u", "kj", "Kj", "f1", "F2")}
+    return {n: binascii.hexlify(n.encode("ascii")).decode() for n in list(UDT_FIELDS) + ["f1", "F2"]}
 
 
 def tree_kinds(t):
@@ -201,9 +203,13 @@ def eval_cass(t, cass_tokens, cql_tokens, full=True):
             if g2 != g:
                 fixes.append(SIG_VECTOR)
                 g = g2
-        if nows(want) != g and "frozen<Kj>" in g:
-            g = g.replace("frozen<Kj>", 'frozen<"Kj">')
-            fixes.append(SIG_UDTQUOTE)
+        if nows(want) != g:
+            g2 = g
+            for raw, quoted in QUOTED.items():
+                g2 = g2.replace("frozen<%s>" % nows(raw), "frozen<%s>" % nows(quoted))
+            if g2 != g:
+                g = g2
+                fixes.append(SIG_UDTQUOTE)
         msg = "lookup_casstype(%r) prints CQL name %r, the type's CQL name is %r" % (s, got, want)
         if g == nows(want) and fixes:
             out += [(f, msg) for f in fixes]
@@ -231,13 +237,21 @@ def eval_cass(t, cass_tokens, cql_tokens, full=True):
     return out
 
 
-def eval_cql(cql_tokens, stripped_tokens):
-    """CQL notation: parse/print round trip and strip_frozen."""
+def _lists(v):
+    return [_lists(x) for x in v] if isinstance(v, (list, tuple)) else v
+
+
+def eval_cql(cql_tokens, stripped_tokens, py_form=None):
+    """CQL notation: structure of the parse, parse/print round trip and strip_frozen."""
     ct = repo_import("cassandra.cqltypes")
     s = cql_string(cql_tokens)
     out = []
     try:
-        rt = ct.python_to_cqltype(ct.cqltype_to_python(s))
+        parsed = ct.cqltype_to_python(s)
+        if py_form is not None and _lists(parsed) != _lists(py_form):
+            out.append(("cqltype_to_python:structure-differs",
+                        "cqltype_to_python(%r) = %r, the type's structure is %r" % (s, parsed, _lists(py_form))))
+        rt = ct.python_to_cqltype(parsed)
         if nows(rt) != nows(s):
             out.append(("cqltype_round_trip:differs", "python_to_cqltype(cqltype_to_python(%r)) = %r" % (s, rt)))
     except Exception as ex:
